@@ -131,6 +131,15 @@ func main() {
 			sort.Strings(ids)
 		}
 		os.Exit(core.SelfTestDeterminism(ids, *n, *seed))
+	case "exec": // execute the case of a replay file and print the full result
+		rp, err := core.ReadReplay(os.Args[2])
+		if err != nil {
+			fmt.Fprintln(os.Stderr, err)
+			os.Exit(2)
+		}
+		res := core.SafeExecute(core.Drivers[rp.Property], rp.Case)
+		b, _ := json.MarshalIndent(res, "", " ")
+		fmt.Println(string(b))
 	case "diffstore":
 		fs := flag.NewFlagSet("diffstore", flag.ExitOnError)
 		n := fs.Int("n", 10, "sequences")
